@@ -1,159 +1,306 @@
 """C11 — periodical / bulk / chunk executors: every added task is executed exactly once;
-Wait covers earlier Adds; a panicking callback loses only its own batch."""
+Wait covers earlier Adds; a panicking callback loses only its own batch.
+
+A case runs several executor instances at once (kinds bulk / chunk / periodical (custom container) /
+bag (custom container whose batches are not slices) / sqlx (core/stores/sqlx.BulkInserter over a stub
+connection)) under one forced schedule; the log is split per instance for Coq."""
 import json
 import os
 import re
+import threading
 
 import vlib
 from runner import Property, ExecError
 from vlib import cz, clist, cbool
 
+OV = os.path.join(vlib.HARNESS, "overlay")
 OVERLAY = {
-    "core/executors/verif_c11_test.go": os.path.join(vlib.HARNESS, "overlay", "executors", "verif_c11_test.go"),
+    "core/executors/verif_c11_test.go": os.path.join(OV, "executors", "verif_c11_test.go"),
+    # the forced-schedule controller: a file ADDED to package executors (shared with the sqlx executor)
+    "core/executors/verif_c11_ctl.go": os.path.join(OV, "executors", "verif_c11_ctl.go"),
+    "core/executors/verif_c11_free_test.go": os.path.join(OV, "executors", "verif_c11_free_test.go"),
     # the shared virtual clock plus a hook at the start of Since (= the executor's shallQuit)
-    "core/timex/relativetime.go": os.path.join(vlib.HARNESS, "overlay", "executors", "relativetime_c11.go"),
+    "core/timex/relativetime.go": os.path.join(OV, "executors", "relativetime_c11.go"),
 }
-RACE_OVERLAY = dict(OVERLAY)
-RACE_OVERLAY["core/executors/verif_c11_free_test.go"] = os.path.join(
-    vlib.HARNESS, "overlay", "executors", "verif_c11_free_test.go")
+SQLX_OVERLAY = {
+    "core/executors/verif_c11_ctl.go": OVERLAY["core/executors/verif_c11_ctl.go"],
+    "core/timex/relativetime.go": OVERLAY["core/timex/relativetime.go"],
+    "core/stores/sqlx/verif_c11_sqlx_test.go": os.path.join(OV, "sqlx", "verif_c11_sqlx_test.go"),
+}
 
 # F6 (Wait skipped a batch handed over by a concurrent Add) is fixed in go-zero; its schedules stay in the
 # corpus as regression cases and nothing is suppressed any more.
 
+CONSTS = {"idleRound": ("core/executors/periodicalexecutor.go", r"^\s*const\s+idleRound\s*=\s*([0-9_]+)\s*$"),
+          "maxBulkRows": ("core/stores/sqlx/bulkinserter.go", r"^\s*maxBulkRows\s*=\s*([0-9_]+)\s*$")}
+
+
+DUR = {"time.Nanosecond": 1, "time.Microsecond": 10**3, "time.Millisecond": 10**6, "time.Second": 10**9, "time.Minute": 60 * 10**9}
+
+
+def read_consts():
+    vals = {}
+    src = open(os.path.join(vlib.REPO, "core/stores/sqlx/bulkinserter.go")).read()
+    m = re.search(r"^\s*flushInterval\s*=\s*(?:([0-9_]+)\s*\*\s*)?(time\.[A-Za-z]+)\s*$", src, re.M)
+    if not m or m.group(2) not in DUR:
+        raise RuntimeError("c11: flushInterval of core/stores/sqlx/bulkinserter.go is no longer <n> * time.<Unit>")
+    vals["flushInterval"] = int((m.group(1) or "1").replace("_", "")) * DUR[m.group(2)]
+    for name, (rel, pat) in CONSTS.items():
+        src = open(os.path.join(vlib.REPO, rel)).read()
+        m = re.search(pat, src, re.M)
+        if not m:
+            raise RuntimeError("c11: constant %s of %s is no longer an integer literal" % (name, rel))
+        vals[name] = int(m.group(1).replace("_", ""))
+    return vals
+
+
+def single(kind, maxw, ncl, ops, **kw):
+    """one instance; ops in the short single-instance form (no instance index, no variants)"""
+    new = []
+    for o in ops:
+        k = o[0]
+        if k in ("add", "addn"):
+            new.append([k, 0] + list(o[1:]))
+        elif k in ("flush", "wait"):
+            new.append([k, 0, o[1], o[2] if len(o) > 2 else 0])
+        elif k in ("sync", "rel", "tick"):
+            new.append([k, 0] + list(o[1:]))
+        else:
+            new.append(list(o))
+    c = {"insts": [{"kind": kind, "maxw": maxw, "interval": 1000, "nclients": ncl}], "bad": [], "gateq": False,
+         "gates": False, "scribble": False, "ops": new, "drain": True}
+    c.update(kw)
+    return c
 
 
 def drain_ops(case):
-    nadds = sum(1 for o in case["ops"] if o[0] == "add")
+    nadds = sum(1 for o in case["ops"] if o[0] in ("add", "addn"))
     k = min(12, nadds + 3)
     unit = [["relall"]] + ([["qgo"]] if case.get("gateq") else []) + ([["sgo"]] if case.get("gates") else [])
-    return unit * k + [["wait", 0]] + unit * k
+    waits = [["wait", i, 0, 1] for i in range(len(case["insts"]))]
+    return unit * k + waits + unit * k
 
 
 # ----------------------------------------------------------------------------------
-# analysis of an observed log (mirror of Check.v's an_step; used for known() and features)
+# per-instance logs and their analysis (mirror of Check.v's an_step; used for the re-run decision,
+# describe_failure and features)
 
 def bmin(b):
     return min(b) if b else -1
 
 
-def analyse(case, obs):
-    """Returns dict: failures (list of dict), stats."""
-    n = case["nclients"]
-    prev = {"idle": [True] * n, "parked": [], "cont": [], "inflight": 0, "guarded": False,
-            "cmd": False, "tick": False, "benter": False, "bexit": False, "qpark": False, "spark": False}
+def inst_logs(case, obs):
+    """[(inst, [(act, obs)])]: the log as each instance saw it; acts in per-instance form"""
+    res = []
+    for i, inst in enumerate(case["insts"]):
+        steps = []
+        for st in obs["steps"]:
+            a = st["act"]
+            k = a[0]
+            if k == "clock":
+                act = ("clock", a[1])
+            elif k == "shutdown":
+                act = ("shutdown",)
+            elif a[1] != i:
+                act = ("nop",)
+            elif k in ("flush", "wait"):
+                act = (k, a[2])
+            else:
+                act = tuple([k] + list(a[2:]))
+            steps.append((act, st["obs"][i]))
+        res.append((inst, steps))
+    return res
+
+
+def analyse_inst(inst, steps, drained):
+    n = inst["nclients"]
+    prev = {"idle": [True] * n, "parked": [], "cont": []}
     started, returned, pending, completed, waits = [], [], [], [], []
     fails = []
-    hist = [prev]
     nwaits = 0
-    for i, st in enumerate(obs["steps"]):
-        a, o = st["act"], st["obs"]
+    for i, (a, o) in enumerate(steps):
         idle_prev = prev["idle"]
-        if a[0] == "add" and a[1] < n and idle_prev[a[1]]:
+        k = a[0]
+        if k == "add" and a[1] < n and idle_prev[a[1]]:
             started.append(a[2])
             pending.append((a[1], a[2]))
-        if a[0] == "wait" and a[1] < n and idle_prev[a[1]]:
+        if k == "addn" and a[1] < n and idle_prev[a[1]]:
+            for t in range(a[2], a[2] + a[3]):
+                started.append(t)
+                pending.append((a[1], t))
+        if k == "wait" and a[1] < n and idle_prev[a[1]]:
             waits.append((a[1], list(returned), i))
             nwaits += 1
-        if a[0] == "rel" and a[1] >= 0:
-            for h in prev["parked"]:
-                if bmin(h) == a[1]:
-                    completed += h
-                    break
+        if k == "rel":
+            rel = []
+            if a[1] >= 0:
+                for h in prev["parked"]:
+                    if bmin(h) == a[1]:
+                        rel = h
+                        break
+            if list(a[2]) != list(rel):
+                fails.append({"kind": "batch-changed-during-callback", "step": i, "at_start": rel, "at_return": a[2]})
+            completed += rel
+        if k == "sync" and a[2] and a[1] < n and idle_prev[a[1]] and list(a[3]) != list(prev["cont"]):
+            fails.append({"kind": "sync-saw-another-container", "step": i, "saw": a[3], "container": prev["cont"]})
         returned += [t for (c, t) in pending if o["idle"][c]]
         pending = [(c, t) for (c, t) in pending if not o["idle"][c]]
         for (c, pre, i0) in [w for w in waits if o["idle"][w[0]]]:
-            missing = [t for t in pre if t not in completed]
+            cs = set(completed)
+            missing = [t for t in pre if t not in cs]
             if missing:
-                fails.append({"kind": "wait", "client": c, "start": i0, "ret": i, "missing": missing})
+                fails.append({"kind": "wait", "client": c, "start": i0, "ret": i, "missing": missing[:20]})
         waits = [w for w in waits if not o["idle"][w[0]]]
         visible = completed + [t for h in o["parked"] for t in h] + o["cont"]
         if len(set(visible)) != len(visible):
             fails.append({"kind": "duplicate", "step": i})
         elif not set(visible) <= set(started):
-            fails.append({"kind": "unknown-task", "step": i})
+            fails.append({"kind": "unknown-task", "step": i, "tasks": sorted(set(visible) - set(started))[:20]})
         elif not pending and sorted(visible) != sorted(started):
-            fails.append({"kind": "lost", "step": i, "missing": sorted(set(started) - set(visible))})
+            fails.append({"kind": "lost", "step": i, "missing": sorted(set(started) - set(visible))[:20]})
         elif o["cont"] and not (o["guarded"] or o["bexit"] or o["spark"]):
-            fails.append({"kind": "orphaned-in-container", "step": i, "tasks": o["cont"]})
+            fails.append({"kind": "orphaned-in-container", "step": i, "tasks": o["cont"][:20]})
         prev = o
-        hist.append(o)
-    if case.get("drain", True):
+    if drained:
         if not all(prev["idle"]) or prev["parked"]:
             fails.append({"kind": "stuck"})
         elif sorted(completed) != sorted(started):
-            fails.append({"kind": "not-executed", "missing": sorted(set(started) - set(completed))})
-    return {"fails": fails, "hist": hist, "started": started, "completed": completed, "nwaits": nwaits}
+            fails.append({"kind": "not-executed", "missing": sorted(set(started) - set(completed))[:20]})
+    return {"fails": fails, "started": started, "completed": completed, "nwaits": nwaits}
+
+
+def case_err(obs):
+    if obs.get("err"):
+        return obs["err"]
+    if obs.get("shut_started") and not obs.get("shut_done"):
+        return "proc.Shutdown() had not returned at the end of the drain"
+    return ""
+
+
+def analyse(case, obs):
+    fails = []
+    for idx, (inst, steps) in enumerate(inst_logs(case, obs)):
+        r = analyse_inst(inst, steps, case.get("drain", True) or bool(case_err(obs)))
+        for f in r["fails"]:
+            f["instance"] = idx
+            fails.append(f)
+    if case_err(obs):
+        fails.append({"kind": "executor", "err": case_err(obs)})
+    return fails
+
+
+def zl(l):
+    """Gallina list of Z; long lists as runs of consecutive numbers (parsing long literals dominates otherwise)"""
+    l = list(l)
+    if len(l) < 12:
+        return clist([cz(t) for t in l])
+    rs = []
+    for t in l:
+        if rs and rs[-1][0] + rs[-1][1] == t:
+            rs[-1][1] += 1
+        else:
+            rs.append([t, 1])
+    if 2 * len(rs) > len(l):
+        return clist([cz(t) for t in l])
+    return "(runs %s)" % clist(["(%s, %d%%nat)" % (cz(a), n) for a, n in rs])
+
+
+def has_sqlx(case):
+    return any(i["kind"] == "sqlx" for i in case["insts"])
 
 
 class C11(Property):
     id = "C11"
     title = "Periodic/bulk/chunk executors run every added task exactly once"
-    quick_cases = 1000
+    quick_cases = 480
     thorough_cases = 4000
     design_ref = "DESIGN.md §6/C11, §5/F6"
     level_text = ("Unbounded Rocq theorems over an interleaving model (LTS) of PeriodicalExecutor with the bulk/chunk "
                   "containers: for every number of clients, threshold, interval and every schedule of atomic actions "
-                  "(Add/Flush/Wait calls, flusher actions, ticks, clock advances, flusher idle-quit and restart, panicking "
+                  "(Add/Flush/Wait/Sync calls, flusher actions, ticks, clock advances, flusher idle-quit and restart, panicking "
                   "callbacks) accepted tasks = executed + lost-by-own-panic + still pending (conservation, no duplication); "
                   "a returned Wait covers every task accepted before it (no hypothesis; refuted for the pre-fix protocol, F6, "
-                  "in Pinned.v); runs with and without panics have the same core state and differ only in executed/lost. The "
-                  "model is tied to core/executors by forced schedules: the observed log must be a trace of the LTS.")
+                  "in Pinned.v); a returned Flush leaves no earlier task in the container; runs with and without panics have the "
+                  "same core state and differ only in executed/lost; a batch handed out by RemoveAll is never written again "
+                  "(buffer model; the buffer-swapping variant and the two 'guarded cleared later' variants are refuted in Pinned.v). "
+                  "The model is tied to core/executors and core/stores/sqlx.BulkInserter by forced schedules on several "
+                  "instances at once: the observed log of every instance must be a trace of the LTS.")
     level_note = ("Trusted: Coq kernel + vm_compute; hand-written LTS (each mutex section / channel operation / callback is one "
                   "atomic action); correspondence on generated forced schedules only; "
                   "quiescence detection via runtime.Stack; core/timex/relativetime.go is replaced by a virtual clock.")
-    rule = ("forced schedules: kind bulk/chunk/periodical, threshold 1..4 (bulk) or 1..8 with weights 0..4, 2..4 clients, "
-            "6..28 controller actions (add/flush/wait/release/tick/clock, idle-quit patterns, in 35% of the cases the flusher is parked before "
-            "shallQuit, in 40% the quitting flusher is parked inside ticker.Stop() with Adds/Flush/Wait in that window, "
-            "and released explicitly), optional panicking tasks, then a "
-            "drain; non-trivial = at least two callbacks, at least one threshold hand-over and one of {Wait, tick flush, "
-            "flusher quit+restart}; distinct = canonical JSON hash of the case")
+    rule = ("forced schedules on 1..3 executor instances at once (kinds bulk/chunk/periodical/bag, threshold 1..4 (bulk) or 1..8 with "
+            "weights 0..4, 2..4 clients each; a few cases per run on sqlx.BulkInserter with threshold maxBulkRows), "
+            "6..28 controller actions (12% of the single-instance cases: 40..70 on one long-lived instance): "
+            "add/flush/wait through the wrapper or the inner executor/sync/release/tick/clock/proc.Shutdown, idle-quit patterns, "
+            "in 35% of the cases the flusher is parked before shallQuit, in 40% the quitting flusher is parked inside "
+            "ticker.Stop() with Adds/Flush/Wait in that window, and released explicitly), optional panicking tasks, "
+            "in 30% callbacks overwrite their batch before returning, then a drain; every batch is read at the start and "
+            "at the return of its callback; non-trivial = at least two callbacks, at least one threshold hand-over and one "
+            "of {Wait, tick flush, flusher quit+restart}; distinct = canonical JSON hash of the case")
     trusted_base = [
-        "model theories/C11/Model.v is hand-written; tie = forced-schedule correspondence (harness/overlay/executors/verif_c11_test.go): "
-        "the observed log must be a trace of the LTS under all interleavings of uncontrolled actions",
-        "atomicity assumption: each mutex section / channel operation / atomic update is one action (thorough tier: free-running -race monitor)",
-        "quiescence detection via runtime.Stack; virtual clock overlay replaces core/timex/relativetime.go; fake ticker injected through newTicker",
-        "Go runtime (channels, mutexes, WaitGroup), proc shutdown listener and logging are not modelled",
+        "model theories/C11/Model.v is hand-written; tie = forced-schedule correspondence (harness/overlay/executors/verif_c11_ctl.go, "
+        "verif_c11_test.go, harness/overlay/sqlx/verif_c11_sqlx_test.go): the observed log of every instance must be a trace of the "
+        "LTS under all interleavings of uncontrolled actions",
+        "atomicity assumption: each mutex section / channel operation / atomic update is one action (free-running monitor with the real "
+        "ticker in every run; under -race in the thorough tier)",
+        "quiescence detection via runtime.Stack (census and observation taken twice; hang/stuck/leak observations are kept only if a "
+        "re-run in a fresh process reproduces them); virtual clock overlay replaces core/timex/relativetime.go; fake ticker injected "
+        "through newTicker",
+        "Go runtime (channels, mutexes, WaitGroup, append/slices) and logging are not modelled; proc.Shutdown() is modelled as a Flush "
+        "call from one more client",
+        "sqlx: the BulkInserter's container is wrapped (content of a batch at the start of Execute vs rows of the statement given to "
+        "the stub SqlConn.Exec); bi.lock is outside the model (calls that would block on it are not started)",
     ]
     assumptions = ["task identities are distinct (the harness adds each id once)",
                    "callbacks terminate or panic; they do not call back into the executor"]
+
+    def __init__(self):
+        self.consts = {"idleRound": 10, "maxBulkRows": 1000, "flushInterval": 10**9}
+
+    # ---- constants of the source the model / the generator rely on -----------------
+    def regen(self, ctx):
+        vals = read_consts()
+        self.consts = vals
+        text = ("(* GENERATED by tools/props/c11.py from core/executors/periodicalexecutor.go and "
+                "core/stores/sqlx/bulkinserter.go - do not edit *)\nFrom Coq Require Import ZArith.\nOpen Scope Z_scope.\n\n"
+                "Definition idle_round : Z := %d.\nDefinition max_bulk_rows : Z := %d.\n"
+                "(* flush interval of the BulkInserter's executor, in ns *)\nDefinition sqlx_flush_interval : Z := %d.\n"
+                % (vals["idleRound"], vals["maxBulkRows"], vals["flushInterval"]))
+        path = os.path.join(vlib.COQ, "gen", "C11Consts.v")
+        old = open(path).read() if os.path.exists(path) else None
+        if old != text:
+            with open(path, "w") as f:
+                f.write(text)
+        return ["C11Consts: idleRound=%d maxBulkRows=%d flushInterval=%dns" % (vals["idleRound"], vals["maxBulkRows"], vals["flushInterval"])]
 
     # ---- cases -------------------------------------------------------------------
     def corpus(self):
         cs = []
         # F6 (fixed; regression): Add a,b -> flusher parked in callback; Add t1 returns; Add t2 blocks holding [t1,t2]; Wait; release
-        for kind in ("bulk", "chunk", "periodical"):
-            cs.append({"kind": kind, "maxw": 2, "interval": 1000, "bad": [], "nclients": 3,
-                       "ops": [["add", 0, 1, 1], ["add", 0, 2, 1], ["add", 0, 3, 1], ["add", 1, 4, 1],
-                               ["wait", 2], ["rel", 0]]})
+        for kind in ("bulk", "chunk", "periodical", "bag"):
+            cs.append(single(kind, 2, 3, [["add", 0, 1, 1], ["add", 0, 2, 1], ["add", 0, 3, 1], ["add", 1, 4, 1],
+                                          ["wait", 2], ["rel", 0]]))
         # F6 variant: the batch is in the flusher's hand, blocked on the barrier held by an earlier Wait
-        cs.append({"kind": "bulk", "maxw": 1, "interval": 1000, "bad": [], "nclients": 4,
-                   "ops": [["add", 0, 1, 1], ["wait", 1], ["add", 0, 2, 1], ["wait", 2], ["rel", 0], ["rel", 0]]})
+        cs.append(single("bulk", 1, 4, [["add", 0, 1, 1], ["wait", 1], ["add", 0, 2, 1], ["wait", 2, 1], ["rel", 0], ["rel", 0]]))
         # F6 variant (Pinned.wait_start_hypothesis_insufficient): nothing handed over when the Wait starts
-        cs.append({"kind": "bulk", "maxw": 2, "interval": 1000, "bad": [], "nclients": 4,
-                   "ops": [["add", 0, 1, 1], ["flush", 3], ["wait", 1], ["add", 0, 2, 1], ["wait", 2],
-                           ["add", 0, 3, 1], ["rel", 0]]})
+        cs.append(single("bulk", 2, 4, [["add", 0, 1, 1], ["flush", 3], ["wait", 1], ["add", 0, 2, 1], ["wait", 2],
+                                        ["add", 0, 3, 1], ["rel", 0]]))
         # F6 variant with three producers
-        cs.append({"kind": "bulk", "maxw": 2, "interval": 1000, "bad": [], "nclients": 4,
-                   "ops": [["add", 0, 1, 1], ["add", 0, 2, 1], ["add", 0, 3, 1], ["add", 1, 4, 1], ["add", 0, 5, 1],
-                           ["add", 2, 6, 1], ["wait", 3], ["rel", 0], ["rel", 0]]})
+        cs.append(single("bulk", 2, 4, [["add", 0, 1, 1], ["add", 0, 2, 1], ["add", 0, 3, 1], ["add", 1, 4, 1], ["add", 0, 5, 1],
+                                        ["add", 2, 6, 1], ["wait", 3], ["rel", 0], ["rel", 0]]))
         # idle quit and restart, tick flush, panic
-        cs.append({"kind": "bulk", "maxw": 3, "interval": 1000, "bad": [], "nclients": 2,
-                   "ops": [["add", 0, 1, 1], ["tick"], ["rel", 0], ["clock", 10001], ["tick"], ["add", 0, 2, 1],
-                           ["clock", 20000], ["tick"], ["rel", 0], ["tick"], ["add", 1, 3, 1], ["add", 1, 4, 1]]})
-        cs.append({"kind": "chunk", "maxw": 5, "interval": 1000, "bad": [2], "nclients": 2,
-                   "ops": [["add", 0, 1, 2], ["add", 0, 2, 3], ["rel", 0], ["add", 1, 3, 4], ["flush", 0], ["rel", 0],
-                           ["add", 1, 4, 1], ["tick"], ["rel", 0], ["tick"]]})
-        cs.append({"kind": "periodical", "maxw": 4, "interval": 1000, "bad": [], "nclients": 3,
-                   "ops": [["add", 0, 1, 0], ["add", 1, 2, 4], ["tick"], ["add", 2, 3, 1], ["rel", 0], ["tick"],
-                           ["tick"], ["rel", 0], ["clock", 10001], ["tick"], ["tick"], ["add", 0, 4, 5]]})
+        cs.append(single("bulk", 3, 2, [["add", 0, 1, 1], ["tick"], ["rel", 0], ["clock", 10001], ["tick"], ["add", 0, 2, 1],
+                                        ["clock", 20000], ["tick"], ["rel", 0], ["tick"], ["add", 1, 3, 1], ["add", 1, 4, 1]]))
+        cs.append(single("chunk", 5, 2, [["add", 0, 1, 2], ["add", 0, 2, 3], ["rel", 0], ["add", 1, 3, 4], ["flush", 0], ["rel", 0],
+                                         ["add", 1, 4, 1], ["tick"], ["rel", 0], ["tick"]], bad=[2]))
+        cs.append(single("periodical", 4, 3, [["add", 0, 1, 0], ["add", 1, 2, 4], ["tick"], ["add", 2, 3, 1], ["rel", 0], ["tick"],
+                                              ["tick"], ["rel", 0], ["clock", 10001], ["tick"], ["tick"], ["add", 0, 4, 5]]))
         # an Add between the flusher's last (empty) tick Flush and its quit decision: the deferred Flush takes it
-        cs.append({"kind": "bulk", "maxw": 3, "interval": 1000, "bad": [], "nclients": 2, "gateq": True,
-                   "ops": [["add", 0, 1, 1], ["tick"], ["rel", 0], ["clock", 10001], ["tick"], ["add", 1, 2, 1],
-                           ["qgo"], ["rel", 0], ["add", 0, 3, 1]]})
+        cs.append(single("bulk", 3, 2, [["add", 0, 1, 1], ["tick"], ["rel", 0], ["clock", 10001], ["tick"], ["add", 1, 2, 1],
+                                        ["qgo"], ["rel", 0], ["add", 0, 3, 1]], gateq=True))
         # a threshold hand-over in the same window: the flusher must not quit (inflight > 0)
-        cs.append({"kind": "bulk", "maxw": 2, "interval": 1000, "bad": [], "nclients": 2, "gateq": True,
-                   "ops": [["add", 0, 1, 1], ["tick"], ["rel", 0], ["clock", 10001], ["tick"], ["add", 1, 2, 1],
-                           ["add", 1, 3, 1], ["qgo"], ["rel", 0]]})
+        cs.append(single("bulk", 2, 2, [["add", 0, 1, 1], ["tick"], ["rel", 0], ["clock", 10001], ["tick"], ["add", 1, 2, 1],
+                                        ["add", 1, 3, 1], ["qgo"], ["rel", 0]], gateq=True))
         # the quitting flusher is parked inside ticker.Stop() (after it cleared guarded, before its deferred
         # Flush): Adds up to / at the threshold, Flush and Wait in that window, then release and drain
         quit_ = [["add", 0, 1, 1], ["tick"], ["rel", 0], ["clock", 10001], ["tick"]]
@@ -166,207 +313,402 @@ class C11(Property):
             (2, [["add", 1, 2, 1], ["add", 1, 3, 1], ["rel", 0], ["clock", 20000], ["tick"], ["tick"],
                  ["add", 0, 4, 1], ["sgo"]]),                                # two flushers parked in Stop
         ]:
-            cs.append({"kind": "bulk", "maxw": maxw, "interval": 1000, "bad": [], "nclients": 2, "gates": True,
-                       "ops": quit_ + mid + [["sgo"], ["relall"]]})
-        cs.append({"kind": "chunk", "maxw": 4, "interval": 1000, "bad": [], "nclients": 3, "gates": True, "gateq": True,
-                   "ops": [["add", 0, 1, 1], ["tick"], ["rel", 0], ["clock", 10001], ["tick"], ["add", 2, 2, 1], ["qgo"],
-                           ["add", 1, 3, 4], ["wait", 0], ["sgo"], ["relall"]]})
+            cs.append(single("bulk", maxw, 2, quit_ + mid + [["sgo"], ["relall"]], gates=True))
+        cs.append(single("chunk", 4, 3, [["add", 0, 1, 1], ["tick"], ["rel", 0], ["clock", 10001], ["tick"], ["add", 2, 2, 1], ["qgo"],
+                                         ["add", 1, 3, 4], ["wait", 0], ["sgo"], ["relall"]], gates=True, gateq=True))
+        # a slow callback holds its batch across two later removals and further Adds (seeded change C11-3: RemoveAll
+        # ping-pongs between two reused buffers): the batch must read the same when the callback returns
+        for kind in ("bulk", "chunk", "periodical", "bag"):
+            cs.append(single(kind, 3, 3, [["add", 0, 1, 1], ["flush", 1], ["add", 0, 2, 1], ["flush", 2], ["add", 0, 3, 1],
+                                          ["flush", 0, 1], ["add", 0, 4, 1], ["rel", 0], ["rel", 0], ["rel", 0]]))
+            cs.append(single(kind, 2, 3, [["add", 0, 1, 1], ["add", 0, 2, 1], ["add", 0, 3, 1], ["add", 0, 4, 1], ["add", 1, 5, 1],
+                                          ["add", 1, 6, 1], ["add", 2, 7, 1], ["rel", 0], ["rel", 0], ["rel", 0]], scribble=True))
+        # Sync, the wrapper's Flush/Wait vs the inner executor's, Wait with nothing pending, the shutdown listener
+        cs.append(single("bulk", 3, 3, [["wait", 0], ["wait", 1, 1], ["flush", 0], ["sync", 2], ["add", 0, 1, 1], ["sync", 1],
+                                        ["add", 0, 2, 1], ["shutdown"], ["sync", 2], ["add", 1, 3, 1], ["rel", 0], ["wait", 0],
+                                        ["wait", 1, 1], ["rel", 0]]))
+        cs.append(single("chunk", 6, 3, [["add", 0, 1, 2], ["sync", 1], ["add", 1, 2, 3], ["wait", 2], ["add", 0, 3, 1],
+                                         ["shutdown"], ["add", 1, 4, 5], ["rel", 0], ["rel", 0]]))
+        # the listener's Flush while the flusher has decided to quit and sits in ticker.Stop()
+        cs.append(single("bag", 3, 2, quit_ + [["add", 1, 2, 1], ["shutdown"], ["add", 0, 3, 1], ["sgo"], ["relall"]], gates=True))
+        # several instances at once: the same ids never cross, one shutdown reaches all of them, shared clock
+        two = {"insts": [{"kind": "bulk", "maxw": 2, "interval": 1000, "nclients": 2},
+                         {"kind": "chunk", "maxw": 4, "interval": 500, "nclients": 2},
+                         {"kind": "bag", "maxw": 2, "interval": 1000, "nclients": 2}],
+               "bad": [5], "gateq": False, "gates": True, "scribble": True, "drain": True,
+               "ops": [["add", 0, 0, 1, 1], ["add", 1, 0, 2, 3], ["add", 2, 1, 3, 1], ["add", 0, 1, 4, 1], ["add", 1, 1, 5, 1],
+                       ["add", 2, 0, 6, 1], ["shutdown"], ["add", 0, 0, 7, 1], ["rel", 0, 0], ["rel", 1, 0], ["rel", 2, 0],
+                       ["relall"], ["clock", 5001], ["tick", 1], ["tick", 1], ["add", 1, 0, 8, 1], ["tick", 0], ["sgo"],
+                       ["clock", 5000], ["tick", 0], ["tick", 0], ["tick", 2], ["tick", 2], ["add", 2, 0, 9, 1], ["sgo"]]}
+        cs.append(two)
+        # sqlx.BulkInserter: the threshold (maxBulkRows) reached twice while the first statement is still executing
+        n = self.consts["maxBulkRows"]
+        iv = self.consts["flushInterval"]
+        idle = self.consts["idleRound"] * iv + 1
+        cs.append({"insts": [{"kind": "sqlx", "maxw": n, "interval": iv, "nclients": 3}], "bad": [], "gateq": False,
+                   "gates": False, "scribble": False, "drain": True,
+                   "ops": [["addn", 0, 0, 1, n - 1], ["add", 0, 0, n, 1], ["addn", 0, 0, n + 1, n - 1], ["sync", 0, 1],
+                           ["add", 0, 1, 2 * n, 1], ["add", 0, 0, 2 * n + 1, 1], ["flush", 0, 2, 0], ["add", 0, 0, 2 * n + 2, 1],
+                           ["rel", 0, 0], ["rel", 0, 0], ["flush", 0, 0, 1], ["rel", 0, 0], ["add", 0, 0, 2 * n + 3, 1],
+                           ["flush", 0, 2, 2], ["relall"], ["tick", 0], ["clock", idle], ["tick", 0], ["tick", 0],
+                           ["add", 0, 1, 2 * n + 4, 1]]})
         for c in cs:
             c["drain"] = True
-            c.setdefault("gateq", False)
-            c.setdefault("gates", False)
         return cs
+
+    def _ops(self, rng, insts, nops, gateq, gates, hold, nid0=1, shutdown=False):
+        nid = nid0
+        ops = []
+        n_inst = len(insts)
+
+        def weight(inst, lo=False):
+            if inst["kind"] == "bulk":
+                return 1
+            return rng.choice([0, 1, 2, 4] if lo else [0, 1, 1, 2, 3, 4])
+
+        while len(ops) < nops:
+            r = rng.random()
+            i = rng.randrange(n_inst)
+            inst = insts[i]
+            c = rng.randrange(inst["nclients"])
+            if hold and 0.62 <= r < 0.78 and rng.random() < 0.75:
+                r = 0.1
+            if r < 0.43:
+                ops.append(["add", i, c, nid, weight(inst)])
+                nid += 1
+            elif r < 0.50:
+                ops.append(["flush", i, c, rng.choice([0, 0, 1])])
+            elif r < 0.59:
+                ops.append(["wait", i, c, rng.choice([0, 0, 1])])
+            elif r < 0.62:
+                ops.append(["sync", i, c])
+            elif r < 0.78:
+                ops.append(["rel", i, rng.randrange(3)])
+            elif r < 0.90:
+                ops.append(["tick", i])
+            elif r < 0.93:
+                ops.append(["clock", rng.choice([0, 1000, 9999, 10000, 10001, 30000])])
+            elif r < 0.96:
+                ops.append(["relall"])
+            else:
+                # idle-quit pattern on instance i
+                ops += [["relall"], ["clock", rng.choice([10001, 20000])], ["tick", i], ["tick", i]]
+                if gateq:
+                    # something happens between the flusher's tick Flush and its quit decision
+                    for _ in range(rng.randint(0, 2)):
+                        ops.append(["add", i, rng.randrange(inst["nclients"]), nid, weight(inst, True)])
+                        nid += 1
+                    ops.append(["qgo"])
+                if gates:
+                    # the flusher has decided to quit and sits in ticker.Stop(): Adds below and at the
+                    # threshold, Flush and Wait happen in that window, then it is released
+                    acc = 0
+                    for _ in range(rng.randint(0, 4)):
+                        r2 = rng.random()
+                        c2 = rng.randrange(inst["nclients"])
+                        if r2 < 0.62:
+                            w = weight(inst, True)
+                            if rng.random() < 0.4:      # make this Add reach the threshold
+                                w = 1 if inst["kind"] == "bulk" else max(1, inst["maxw"] - acc)
+                            acc += w
+                            ops.append(["add", i, c2, nid, w])
+                            nid += 1
+                        elif r2 < 0.76:
+                            ops.append(["flush", i, c2, rng.choice([0, 1])])
+                        elif r2 < 0.88:
+                            ops.append(["wait", i, c2, rng.choice([0, 1])])
+                        elif r2 < 0.93 and shutdown:
+                            ops.append(["shutdown"])
+                        else:
+                            ops.append(["tick", i])
+                    ops.append(["sgo"])
+            if gateq and rng.random() < 0.08:
+                ops.append(["qgo"])
+            if gates and rng.random() < 0.08:
+                ops.append(["sgo"])
+        if shutdown and not any(o[0] == "shutdown" for o in ops):
+            ops.insert(rng.randrange(len(ops) + 1), ["shutdown"])
+        return ops, nid
+
+    def _gen_sqlx(self, rng):
+        n = self.consts["maxBulkRows"]
+        iv = self.consts["flushInterval"]
+        idle = self.consts["idleRound"] * iv
+        ops, nid = [], 1
+        for _ in range(rng.randint(1, 3)):
+            k = rng.choice([n - 1, n - 1, n - 2, n // 2])
+            ops.append(["addn", 0, rng.randrange(3), nid, k])
+            nid += k
+            for _ in range(rng.randint(2, 7)):
+                r = rng.random()
+                c = rng.randrange(3)
+                if r < 0.4:
+                    ops.append(["add", 0, c, nid, 1])
+                    nid += 1
+                elif r < 0.55:
+                    ops.append(["flush", 0, c, rng.choice([0, 1, 2])])
+                elif r < 0.62:
+                    ops.append(["sync", 0, c])
+                elif r < 0.7:
+                    ops.append(["wait", 0, c, 0])
+                elif r < 0.85:
+                    ops.append(["rel", 0, rng.randrange(2)])
+                elif r < 0.95:
+                    ops.append(["tick", 0])
+                else:
+                    ops += [["relall"], ["clock", rng.choice([idle, idle + 1, 2 * idle])], ["tick", 0], ["tick", 0]]
+        bad = [rng.randrange(1, nid)] if rng.random() < 0.2 else []
+        return {"insts": [{"kind": "sqlx", "maxw": n, "interval": iv, "nclients": 3}], "bad": bad, "gateq": False,
+                "gates": rng.random() < 0.3, "scribble": rng.random() < 0.3, "ops": ops, "drain": True}
 
     def gen(self, rng, n, tier):
         cases = []
-        for _ in range(n):
-            kind = rng.choice(["bulk", "bulk", "chunk", "periodical"])
-            if kind == "bulk":
-                maxw = rng.choice([1, 2, 2, 3, 4])
-            else:
-                maxw = rng.choice([1, 2, 3, 4, 5, 8])
-            ncl = rng.choice([2, 3, 3, 4])
-            nops = rng.randint(6, 28)
-            nid = 1
-            ops = []
+        n_sqlx = max(2, n // 120)
+        for _ in range(n - n_sqlx):
+            r = rng.random()
+            ninst = 1 if r < 0.62 else (2 if r < 0.9 else 3)
+            insts = []
+            for _i in range(ninst):
+                kind = rng.choice(["bulk", "bulk", "bulk", "chunk", "chunk", "periodical", "bag"])
+                maxw = rng.choice([1, 2, 2, 3, 4]) if kind == "bulk" else rng.choice([1, 2, 3, 4, 5, 8])
+                ncl = rng.choice([2, 3, 3, 4]) if ninst == 1 else rng.choice([2, 2, 3])
+                insts.append({"kind": kind, "maxw": maxw, "interval": rng.choice([1000, 1000, 500]), "nclients": ncl})
+            long_lived = ninst == 1 and rng.random() < 0.12
+            nops = rng.randint(40, 70) if long_lived else (rng.randint(6, 28) if ninst == 1 else rng.randint(10, 30))
             hold = rng.random() < 0.2   # keep callbacks parked for long: hand-overs pile up
             gateq = rng.random() < 0.35  # park the flusher before shallQuit until "qgo"
             gates = rng.random() < 0.4   # park the quitting flusher inside ticker.Stop() until "sgo"
-            while len(ops) < nops:
-                r = rng.random()
-                c = rng.randrange(ncl)
-                if hold and 0.62 <= r < 0.78 and rng.random() < 0.75:
-                    r = 0.1
-                if r < 0.45:
-                    w = 1 if kind == "bulk" else rng.choice([0, 1, 1, 2, 3, 4])
-                    ops.append(["add", c, nid, w])
-                    nid += 1
-                elif r < 0.52:
-                    ops.append(["flush", c])
-                elif r < 0.62:
-                    ops.append(["wait", c])
-                elif r < 0.78:
-                    ops.append(["rel", rng.randrange(3)])
-                elif r < 0.90:
-                    ops.append(["tick"])
-                elif r < 0.93:
-                    ops.append(["clock", rng.choice([0, 1000, 9999, 10000, 10001, 30000])])
-                elif r < 0.96:
-                    ops.append(["relall"])
-                else:
-                    # idle-quit pattern
-                    ops += [["relall"], ["clock", rng.choice([10001, 20000])], ["tick"], ["tick"]]
-                    if gateq:
-                        # something happens between the flusher's tick Flush and its quit decision
-                        for _ in range(rng.randint(0, 2)):
-                            w = 1 if kind == "bulk" else rng.choice([0, 1, 2, 4])
-                            ops.append(["add", rng.randrange(ncl), nid, w])
-                            nid += 1
-                        ops.append(["qgo"])
-                    if gates:
-                        # the flusher has decided to quit and sits in ticker.Stop(): Adds below and at the
-                        # threshold, Flush and Wait happen in that window, then it is released
-                        acc = 0
-                        for _ in range(rng.randint(0, 4)):
-                            r2 = rng.random()
-                            c2 = rng.randrange(ncl)
-                            if r2 < 0.65:
-                                w = 1 if kind == "bulk" else rng.choice([0, 1, 2, 4])
-                                if rng.random() < 0.4:      # make this Add reach the threshold
-                                    w = 1 if kind == "bulk" else max(1, maxw - acc)
-                                acc += w
-                                ops.append(["add", c2, nid, w])
-                                nid += 1
-                            elif r2 < 0.8:
-                                ops.append(["flush", c2])
-                            elif r2 < 0.92:
-                                ops.append(["wait", c2])
-                            else:
-                                ops.append(["tick"])
-                        ops.append(["sgo"])
-                if gateq and rng.random() < 0.08:
-                    ops.append(["qgo"])
-                if gates and rng.random() < 0.08:
-                    ops.append(["sgo"])
+            shutdown = rng.random() < 0.12
+            if shutdown:    # the listener's goroutine is one more thread: keep the interleavings of a release explorable
+                for inst in insts:
+                    inst["nclients"] = min(inst["nclients"], 3)
+            ops, nid = self._ops(rng, insts, nops, gateq, gates, hold, shutdown=shutdown)
             bad = []
             if rng.random() < 0.2 and nid > 1:
                 bad = sorted(set(rng.randrange(1, nid) for _ in range(rng.randint(1, 2))))
-            cases.append({"kind": kind, "maxw": maxw, "interval": 1000, "bad": bad, "nclients": ncl,
-                          "ops": ops, "drain": True, "gateq": gateq, "gates": gates})
+            cases.append({"insts": insts, "bad": bad, "gateq": gateq, "gates": gates, "scribble": rng.random() < 0.3,
+                          "ops": ops, "drain": True})
+        for _ in range(n_sqlx):
+            cases.append(self._gen_sqlx(rng))
         return cases
 
     # ---- execution ---------------------------------------------------------------
+    def _run(self, cases, tag, sqlx, box, key, free_env=None):
+        try:
+            if sqlx:
+                box[key] = vlib.go_test_overlay("./core/stores/sqlx", SQLX_OVERLAY, run="TestVerifC11Sqlx$", cases=cases,
+                                                tag=tag, timeout=900)
+            else:
+                box[key] = vlib.go_test_overlay("./core/executors", OVERLAY,
+                                                run="TestVerifC11$" if not free_env else "TestVerifC11$|TestVerifC11Free$",
+                                                cases=cases, tag=tag, timeout=900, env=free_env)
+        except Exception as e:       # noqa: BLE001
+            box[key] = (99, "exception: %s" % e, [])
+
+    def _exec_once(self, send, tag, free_env=None):
+        """runs the cases (executors binary / sqlx binary in parallel); returns {id: raw result}"""
+        a = [d for d in send if not has_sqlx(d)]
+        b = [d for d in send if has_sqlx(d)]
+        box = {}
+        ths = []
+        if a or free_env:
+            ths.append(threading.Thread(target=self._run, args=(a, tag, False, box, "a", free_env)))
+        if b:
+            ths.append(threading.Thread(target=self._run, args=(b, tag + "x", True, box, "b")))
+        for t in ths:
+            t.start()
+        for t in ths:
+            t.join()
+        res = {}
+        for key, part in (("a", a), ("b", b)):
+            if key not in box:
+                continue
+            rc, out, rs = box[key]
+            if rc != 0 or len(rs) != len(part):
+                raise ExecError("c11 executor (%s) rc=%s (%d/%d results): %s" % (key, rc, len(rs), len(part), out[-3000:]))
+            for d, r in zip(part, rs):
+                res[d["id"]] = r
+        return res
+
     def execute(self, cases, ctx):
         send = []
-        for c in cases:
+        for k, c in enumerate(cases):
             d = dict(c)
             d["ops"] = list(c["ops"]) + (drain_ops(c) if c.get("drain", True) else [])
-            d.setdefault("id", 0)
+            d["id"] = k
             send.append(d)
-        rc, out, res = vlib.go_test_overlay("./core/executors", OVERLAY, run="TestVerifC11$", cases=send,
-                                            tag="c11", timeout=900)
-        if rc != 0 or len(res) != len(cases):
-            raise ExecError("c11 executor rc=%s (%d/%d results): %s" % (rc, len(res), len(cases), out[-3000:]))
-        return [{"steps": r.get("steps") or [], "err": r.get("err", "")} for r in res]
+        free_env = None
+        if len(cases) > 50 and ctx.tier != "thorough" and not getattr(self, "_free_out", None):
+            # the free-running monitor (real ticker) rides along with the main run, see extra()
+            self._free_out = os.path.join(vlib.ROOT, ".run", "c11free_%d.json" % os.getpid())
+            free_env = {"VERIF_FREE_OUT": self._free_out, "VERIF_FREE_ROUNDS": "6", "VERIF_SEED": str(ctx.seed)}
+        res = self._exec_once(send, "c11", free_env)
+
+        def to_obs(r):
+            return {"steps": r.get("steps") or [], "err": r.get("err", ""),
+                    "shut_started": bool(r.get("shut_started")), "shut_done": bool(r.get("shut_done"))}
+
+        obs = [to_obs(res[k]) for k in range(len(cases))]
+        # Under a forced schedule a hang / stuck call / lost task is deterministic.  The machine may be heavily
+        # loaded (quiescence detection looks at goroutine states): every failing observation is re-run once, alone,
+        # in a fresh process and kept only if the re-run fails as well.  Cases skipped because proc.Shutdown() hung
+        # in an earlier case of the same process are re-run too.
+        for _round in range(3):
+            sus = [k for k in range(len(cases)) if analyse(cases[k], obs[k])]
+            if not sus or len(sus) > 60:
+                break
+            skipped = [k for k in sus if obs[k]["err"].startswith("skipped")]
+            todo = skipped if (_round > 0 and skipped) else sus
+            try:
+                res2 = self._exec_once([send[k] for k in todo], "c11r%d" % _round)
+            except ExecError:
+                break
+            changed = False
+            for k in todo:
+                o2 = to_obs(res2[k])
+                if not analyse(cases[k], o2):
+                    ctx.notes.append("case %d: failing observation not reproduced on a re-run in a fresh process (discarded)" % k)
+                    obs[k] = o2
+                    changed = True
+                elif obs[k]["err"].startswith("skipped") and not o2["err"].startswith("skipped"):
+                    obs[k] = o2
+                    changed = True
+            if not any(obs[k]["err"].startswith("skipped") for k in range(len(cases))) or not changed:
+                break
+        return obs
 
     # ---- Coq rendering -----------------------------------------------------------
     def _act(self, a):
         k = a[0]
         if k == "add":
             return "AAdd %d %s %s" % (a[1], cz(a[2]), cz(a[3]))
+        if k == "addn":
+            return "AAddN %d %s %d%%nat" % (a[1], cz(a[2]), a[3])
         if k == "flush":
             return "AFlush %d" % a[1]
         if k == "wait":
             return "AWait %d" % a[1]
+        if k == "sync":
+            return "ASync %d %s" % (a[1], ("(Some %s)" % zl(a[3])) if a[2] else "None")
         if k == "rel":
-            return "ARel %s" % cz(a[1])
+            return "ARel %s %s" % (cz(a[1]), zl(a[2]))
         if k == "tick":
             return "ATick"
         if k == "qgo":
             return "AQuitGo"
         if k == "sgo":
             return "AStopGo"
+        if k == "shutdown":
+            return "AShutdown"
+        if k == "nop":
+            return "ANop"
         return "AClock %s" % cz(a[1])
 
     def _obs(self, o):
-        return "mkObs %s %s %s %s %s %s %s %s %s %s %s" % (
+        return "mkObs %s %s %s %s %s %s %s %s %s %s %s %s" % (
             clist([cbool(b) for b in o["idle"]]),
-            clist([clist([cz(t) for t in h]) for h in o["parked"]]),
-            clist([cz(t) for t in o["cont"]]), cz(o["inflight"]), cbool(o["guarded"]), cbool(o["cmd"]),
+            clist([zl(h) for h in o["parked"]]),
+            zl(o["cont"]), cz(o["size"]), cz(o["inflight"]), cbool(o["guarded"]), cbool(o["cmd"]),
             cbool(o["tick"]), cbool(o["benter"]), cbool(o["bexit"]), cbool(o["qpark"]), cbool(o["spark"]))
 
     def coq_case(self, case, obs):
-        steps = clist(["(%s, %s)" % (self._act(s["act"]), self._obs(s["obs"])) for s in obs["steps"]])
-        # an executor error (no quiescence) is a failing history: the drain flag makes final_ok fail
-        return "mkCase %s %s %s %s %s %s %d%%nat %s" % (
-            cz(case["maxw"]), cz(case["interval"]), clist([cz(b) for b in case["bad"]]),
-            cbool(bool(case.get("drain", True)) or bool(obs.get("err"))), cbool(bool(case.get("gateq"))),
-            cbool(bool(case.get("gates"))), case["nclients"], steps)
+        err = bool(case_err(obs))
+        parts = []
+        for inst, steps in inst_logs(case, obs):
+            st = clist(["(%s, %s)" % (self._act(a), self._obs(o)) for a, o in steps])
+            # an executor error (no quiescence, shutdown stuck) is a failing history
+            parts.append("mkCase %s %s %s %s %s %s %s %d%%nat %s" % (
+                cz(inst["maxw"]), cz(inst["interval"]), clist([cz(b) for b in case["bad"]]),
+                cbool(bool(case.get("drain", True))), cbool(err), cbool(bool(case.get("gateq"))),
+                cbool(bool(case.get("gates"))), inst["nclients"], st))
+        return clist(parts)
 
     # ---- classification ----------------------------------------------------------
     def nontrivial(self, case, obs):
         steps = obs["steps"]
-        ncb = sum(1 for s in steps if s["act"][0] == "rel" and s["act"][1] >= 0)
-        hand = any(s["obs"]["inflight"] > 0 or s["obs"]["cmd"] for s in steps) or \
-            any(s["act"][0] == "add" and len(s["obs"]["parked"]) > 0 for s in steps)
+        ncb = sum(1 for s in steps if s["act"][0] == "rel" and s["act"][2] >= 0)
+        hand = any(o["inflight"] > 0 or o["cmd"] for s in steps for o in s["obs"]) or \
+            any(s["act"][0] == "add" and len(s["obs"][s["act"][1]]["parked"]) > 0 for s in steps)
         other = any(s["act"][0] in ("wait", "tick") for s in steps[:len(case["ops"])])
         return ncb >= 2 and hand and other
 
     def features(self, case, obs):
-        fs = ["kind=" + case["kind"], "maxw=%d" % case["maxw"], "clients=%d" % case["nclients"]]
+        fs = ["instances=%d" % len(case["insts"])]
+        fs += sorted(set("kind=" + i["kind"] for i in case["insts"]))
         fs += ["has_" + k for k in sorted(set(o[0] for o in case["ops"]))]
         if case["bad"]:
             fs.append("panicking_tasks")
+        if case.get("scribble"):
+            fs.append("callbacks_overwrite_their_batch")
         steps = obs["steps"]
-        g = [s["obs"]["guarded"] for s in steps]
-        if any(g[i] and not g[i + 1] for i in range(len(g) - 1)):
-            fs.append("flusher_quit")
-            j = [i for i in range(len(g) - 1) if g[i] and not g[i + 1]][0]
-            if any(g[j + 1:]):
-                fs.append("flusher_restart")
-        if any(s["obs"]["inflight"] > 0 for s in steps):
+        for i in range(len(case["insts"])):
+            g = [s["obs"][i]["guarded"] for s in steps]
+            quits = [j for j in range(len(g) - 1) if g[j] and not g[j + 1]]
+            if quits:
+                fs.append("flusher_quit")
+                if any(g[quits[0] + 1:]):
+                    fs.append("flusher_restart")
+                if len(quits) >= 2:
+                    fs.append("flusher_quit_twice_on_one_instance")
+        if any(o["inflight"] > 0 for s in steps for o in s["obs"]):
             fs.append("handover_pending")
-        if any(s["obs"].get("spark") for s in steps):
+        if any(o.get("spark") for s in steps for o in s["obs"]):
             fs.append("flusher_parked_in_stop")
-            if any(s["obs"].get("spark") and s["act"][0] == "add" and (s["obs"]["inflight"] > 0 or s["obs"]["parked"])
-                   for s in steps):
-                fs.append("threshold_add_while_in_stop")
-        if any(s["obs"]["benter"] for s in steps):
+        if any(o["benter"] for s in steps for o in s["obs"]):
             fs.append("flusher_blocked_on_barrier")
-        an = analyse(case, obs)
-        if any(f["kind"] == "wait" for f in an["fails"]):
+        # a callback that stayed parked while at least two later batches were removed from the same container
+        for i in range(len(case["insts"])):
+            first, last = {}, {}
+            for j, s in enumerate(steps):
+                for h in s["obs"][i]["parked"]:
+                    first.setdefault(tuple(h), j)
+                    last[tuple(h)] = j
+            if any(sum(1 for h2 in first if first[h1] < first[h2] <= last[h1]) >= 2 for h1 in first):
+                fs.append("callback_outlives_two_later_removals")
+                break
+        if any(f["kind"] == "wait" for f in analyse(case, obs)):
             fs.append("wait_returned_early")
         fs.append("steps<=%d" % (10 * (1 + len(steps) // 10)))
-        return fs
+        return sorted(set(fs))
 
-    # ---- thorough tier: free-running -race monitor (atomicity assumption, DESIGN §3.3) ----
+    # ---- free-running monitor: real ticker, uncontrolled goroutines (atomicity assumption, DESIGN §3.3) ----
     def extra(self, ctx):
-        if ctx.tier != "thorough":
-            return []
-        rc, out, res = vlib.go_test_overlay("./core/executors", RACE_OVERLAY, run="TestVerifC11Free$", cases=[],
-                                            tag="c11free", timeout=900, race=True,
-                                            env={"VERIF_SEED": str(ctx.seed)})
         fails = []
-        if "DATA RACE" in out:
-            fails.append({"what": "data race in core/executors under the free-running monitor",
-                          "replay": {"output": out[-3000:]}})
-        rounds = res[0] if res and isinstance(res[0], list) else []
-        if rc != 0 and not fails:
-            raise ExecError("c11 free-running monitor rc=%s: %s" % (rc, out[-2000:]))
+        out = ""
+        if ctx.tier == "thorough":
+            rc, out, res = vlib.go_test_overlay("./core/executors", OVERLAY, run="TestVerifC11Free$", cases=[],
+                                                tag="c11free", timeout=900, race=True,
+                                                env={"VERIF_SEED": str(ctx.seed)})
+            rounds = res[0] if res and isinstance(res[0], list) else []
+            if "DATA RACE" in out:
+                fails.append({"what": "data race in core/executors under the free-running monitor",
+                              "replay": {"output": out[-3000:]}})
+            if rc != 0 and not fails:
+                raise ExecError("c11 free-running monitor rc=%s: %s" % (rc, out[-2000:]))
+        else:
+            # quick tier: a few rounds without -race were run together with the forced schedules
+            p = getattr(self, "_free_out", None)
+            rounds = []
+            if p and os.path.exists(p):
+                try:
+                    rounds = json.load(open(p))
+                finally:
+                    os.remove(p)
+            self._free_out = None
         if not rounds and not fails:
             raise ExecError("c11 free-running monitor produced no result: %s" % out[-1000:])
         for r in rounds:
-            if r.get("dup") or r.get("missing") or r.get("unknown"):
-                fails.append({"what": "free run: tasks executed twice %s / never %s / unknown %s"
-                                      % (r.get("dup"), r.get("missing"), r.get("unknown")), "replay": r})
-        ctx.notes.append("free-running -race monitor: %d rounds x 450 tasks, %d failing" % (len(rounds), len(fails)))
+            if r.get("dup") or r.get("missing") or r.get("unknown") or r.get("changed"):
+                fails.append({"what": "free run: tasks executed twice %s / never %s / unknown %s / batches that changed "
+                                      "during their callback %s" % (r.get("dup"), r.get("missing"), r.get("unknown"), r.get("changed")),
+                              "replay": r})
+        ctx.notes.append("free-running monitor (real ticker%s): %d rounds, %d failing"
+                         % (", -race" if ctx.tier == "thorough" else "", len(rounds), len(fails)))
         return fails[:3]
 
     def describe_failure(self, case, obs):
-        if obs.get("err"):
-            return "executor got stuck: " + obs["err"]
-        an = analyse(case, obs)
-        return "on the observed log: %s" % json.dumps(an["fails"][:3])
+        fails = analyse(case, obs)
+        return "on the observed log: %s" % json.dumps(fails[:3])
 
 
 PROPERTY = C11()
